@@ -11,7 +11,9 @@ cp $OUT/demo.rs $W/tests/seeded_demo.rs 2>/dev/null || { mkdir -p $W/tests; cp $
 cd $W
 cargo test --offline --features verif-hooks --test seeded_demo > $OUT/verify_demo_without.log 2>&1; D0=$?
 git apply $OUT/patch.diff; AP=$?
+mv $W/tests/seeded_demo.rs $W/seeded_demo.rs.aside   # the 54-test suite runs without the demonstration in tests/
 cargo nextest run --workspace --no-fail-fast --offline > $OUT/verify_suite_with.log 2>&1; S1=$?
+mv $W/seeded_demo.rs.aside $W/tests/seeded_demo.rs
 PASSED=$(grep -o "[0-9]* passed" $OUT/verify_suite_with.log | tail -1)
 cargo test --offline --features verif-hooks --test seeded_demo > $OUT/verify_demo_with.log 2>&1; D1=$?
 cd /; git -C /repo worktree remove --force $W
